@@ -1176,13 +1176,18 @@ CaseX86M_GPB_MulDiv:
 
     case InstDB::kEncodingX86Call:
       if (isign3 == ENC_OPS1(Reg)) {
+        // CALL r16 needs operand-size override prefix (only valid in 32-bit mode).
+        opcode.add_66h_by_size(o0.x86_rm_size());
         rb_reg = o0.id();
         goto EmitX86R;
       }
 
       rm_rel = &o0;
-      if (isign3 == ENC_OPS1(Mem))
+      if (isign3 == ENC_OPS1(Mem)) {
+        // CALL m16 needs operand-size override prefix (only valid in 32-bit mode).
+        opcode.add_66h_by_size(o0.x86_rm_size());
         goto EmitX86M;
+      }
 
       // Call with 32-bit displacement use 0xE8 opcode. Call with 8-bit displacement is not encodable so the
       // alternative opcode field in X86DB must be zero.
@@ -1491,13 +1496,18 @@ CaseX86M_GPB_MulDiv:
 
     case InstDB::kEncodingX86Jmp:
       if (isign3 == ENC_OPS1(Reg)) {
+        // JMP r16 needs operand-size override prefix (only valid in 32-bit mode).
+        opcode.add_66h_by_size(o0.x86_rm_size());
         rb_reg = o0.id();
         goto EmitX86R;
       }
 
       rm_rel = &o0;
-      if (isign3 == ENC_OPS1(Mem))
+      if (isign3 == ENC_OPS1(Mem)) {
+        // JMP m16 needs operand-size override prefix (only valid in 32-bit mode).
+        opcode.add_66h_by_size(o0.x86_rm_size());
         goto EmitX86M;
+      }
 
       // Jump encoded with 32-bit displacement use 0xE9 opcode. Jump encoded with 8-bit displacement's opcode is
       // stored as an alternative opcode.
